@@ -51,7 +51,9 @@ def rule_block_gate(ctx: Ctx, rep: Report) -> None:
     wc = ctx.func(f"{BL}.Block.assert_valid_witness_commitment")
     cw = refusal_constraints(ctx, wc)
     rep.ob(rule, "witness:without_commitment", any(c.subject == "commitment" and c.op == "is" for c in cw), wc.where(), "witness data without a commitment refused")
-    rep.ob(rule, "witness:mismatch", any(c.op == "!=" and {c.subject, c.value_text} == {"witness_commitment_", "commitment"} for c in cw), wc.where(), "commitment mismatch refused")
+    mw: dict[str, str] = {}
+    wcm = PT.find(wc.node, "$wc = _HF($wr + $ws[0])", mw)
+    rep.ob(rule, "witness:mismatch", wcm is not None and any(c.op == "!=" and mw.get("wc") in (str(c.subject), str(c.value_text).split(" |")[0]) for c in cw), wc.where(wcm), "commitment mismatch refused")
     rep.ob(rule, "witness:nonce_shape", any("len(witness_stack)" in c.subject and c.op == "!=" and c.value == 1 for c in cw) and any("len(witness_stack[0])" in c.subject and c.value == 32 for c in cw), wc.where(), "exactly one 32-byte witness nonce")
     txt = PT.text(wc)
     rep.ob(rule, "witness:coinbase_zero_hash", "[b'\\x00' * 32] + [_HF(tx.serialize(include_witness=True, check_validity=False)) for tx in self.transactions[1:]]" in txt, wc.where(), "the coinbase's wtxid is 32 zero bytes")
@@ -150,8 +152,12 @@ def rule_pow(ctx: Ctx, rep: Report) -> None:
     bt = ctx.func(f"{PW}.bits_from_target")
     txt = PT.text(bt)
     rep.ob(rule, "encode:exponent", "exponent = (value.bit_length() + 7) // 8" in txt, bt.where(), "exponent = byte length of the value")
-    rep.ob(rule, "encode:pivot", ("if exponent <= 3: significand = value << 8 * (3 - exponent)" in txt or "if exponent < 3: significand = value << 8 * (3 - exponent)" in txt) and "significand = value >> 8 * (exponent - 3)" in txt, bt.where(), "shift left at or below 3, right above")
-    rep.ob(rule, "encode:sign_bit", "if significand & _SIGNIFICAND_SIGN_BIT: significand >>= 8 exponent += 1" in txt, bt.where(), "a mantissa with the sign bit set is shifted and the exponent incremented")
+    me: dict[str, str] = {}
+    piv = PT.find(bt.node, "if $e <= 3:\n    $s = $v << 8 * (3 - $e)\nelse:\n    $s = $v >> 8 * ($e - 3)", me) or PT.find(bt.node, "if $e < 3:\n    $s = $v << 8 * (3 - $e)\nelse:\n    $s = $v >> 8 * ($e - 3)", me) \
+        or PT.find(bt.node, "if $e > 3:\n    $s = $v >> 8 * ($e - 3)\nelse:\n    $s = $v << 8 * (3 - $e)", me)
+    rep.ob(rule, "encode:pivot", piv is not None, bt.where(piv), "shift left at or below 3, right above")
+    sb = PT.find(bt.node, "if $s & _SIGNIFICAND_SIGN_BIT:\n    $s >>= 8\n    $e += 1", me)
+    rep.ob(rule, "encode:sign_bit", sb is not None, bt.where(sb), "a mantissa with the sign bit set is shifted and the exponent incremented")
     rep.ob(rule, "encode:length", has_bound(refusal_constraints(ctx, bt), ">", 32, subject="len(target)") is not None or any(c.subject == "len(target)" and c.op == ">" for c in refusal_constraints(ctx, bt)), bt.where(), "targets longer than 32 bytes refused")
     nb = ctx.func(f"{PW}.next_bits")
     txt = PT.text(nb)
@@ -178,8 +184,10 @@ def rule_filter_cmpct(ctx: Ctx, rep: Report) -> None:
     fb = ctx.func(f"{BF}.BasicBlockFilter.from_block")
     txt = PT.text(fb)
     rep.ob(rule, "bip158:exclusions", "_OP_RETURN" in txt and ("if script" in txt or "and script" in txt or "if s" in txt), fb.where(), "OP_RETURN outputs and empty scripts are excluded")
-    rep.ob(rule, "bip158:coinbase_prevouts_excluded", "for tx in block.transactions if not tx.is_coinbase" in txt, fb.where(), "the coinbase's inputs spend nothing and are not counted")
-    rep.ob(rule, "bip158:prevout_count", any(c.subject == "len(prevout_scripts)" and c.op == "!=" and c.value_text == "spent" for c in refusal_constraints(ctx, fb)), fb.where(), "one previous output script per spent input")
+    mc_: dict[str, str] = {}
+    cbx = PT.find(fb.node, "$n = sum((len($t.vin) for $t in block.transactions if not $t.is_coinbase))", mc_)
+    rep.ob(rule, "bip158:coinbase_prevouts_excluded", cbx is not None, fb.where(cbx), "the coinbase's inputs spend nothing and are not counted")
+    rep.ob(rule, "bip158:prevout_count", has(refusal_constraints(ctx, fb), "len(prevout_scripts)", "!=", mc_.get("n", "spent")) is not None, fb.where(), "one previous output script per spent input")
     CB = "btclib.p2p.compact_blocks"
     rep.ob(rule, "bip152:sizes", ctx.const(CB, "_SHORT_ID_SIZE") == 6 and ctx.const(CB, "_NONCE_SIZE") == 8, "btclib/p2p/compact_blocks.py:1", "6-byte short ids, 8-byte nonce")
     sk = ctx.func(f"{CB}.CmpctBlock.short_id_key")
@@ -191,7 +199,9 @@ def rule_filter_cmpct(ctx: Ctx, rep: Report) -> None:
     cr = refusal_constraints(ctx, rc)
     rep.ob(rule, "bip152:collision_refused", any(c.subject == "len(set(short_ids))" and c.op == "!=" and c.value_text == "len(short_ids)" for c in cr), rc.where(), "duplicate short ids within the block are refused")
     txt = PT.text(rc)
-    rep.ob(rule, "bip152:pool_collision_unfilled", "collided.add(short_id)" in txt and "available[position_of[short_id]] = None" in txt, rc.where(), "two pool transactions under one short id leave the slot unfilled")
+    mp: dict[str, str] = {}
+    okpc = PT.has(rc.node, "$col.add($sid)", mp) and PT.has(rc.node, "$av[$pos[$sid]] = None", mp)
+    rep.ob(rule, "bip152:pool_collision_unfilled", okpc, rc.where(), "two pool transactions under one short id leave the slot unfilled")
     rep.ob(rule, "bip152:empty_refused", any(c.subject == "count" and c.op == "falsy" for c in cr), rc.where(), "a compact block of no transactions is refused")
 
 
